@@ -9,7 +9,8 @@ the socket at the same instant, read one per loop iteration), optionally held ba
 later) — the race between "client task finishing" and "next datagram arriving".  Handler shape per client: requests
 consumed per generator (1-4, then return => a fresh generator has to be started for queued datagrams), virtual
 processing time per request, yielded timeouts for the following request (wait again / return / raise on expiry),
-exceptions (high-level server only: the low-level server documents nothing about them), malformed datagrams.
+exceptions (high-level server only: the low-level server documents nothing about them), the handler ending with
+asyncio.CancelledError (both servers: supported, the server keeps running), malformed datagrams.
 The documented "generator returns before its first yield => datagram discarded" case is never generated.
 
 Oracle clauses (violation keys ``C16/<harness>/<clause>[/<site>]``):
@@ -48,7 +49,7 @@ RULE = (
     "each optionally held back 1-3 loop iterations, plus up to 3 reactive datagrams per client injected when a handler finishes a "
     "request (same task step or 1-3 iterations later, to the same or another client); handler shape per client: requests per generator "
     "1-4, processing sleeps {0,2,8,32}/64 s, yielded timeouts {None,4,16}/64 s with wait-again/return/raise, handler exceptions "
-    "(high-level server), parse errors caught or re-raised; selector hold/reorder/spurious readiness. "
+    "(high-level server), handler raising asyncio.CancelledError after request r (both servers), parse errors caught or re-raised; selector hold/reorder/spurious readiness. "
     "Non-trivial run = a fault kind fired and >=1 request handled."
 )
 COMPONENTS_REAL = [
@@ -90,6 +91,9 @@ def _gen_client(world: World, k: int, low: bool, calm: bool) -> dict:
         "tmo_mode": world.choose("tmo_mode", 2 if (calm or low) else 3),  # 0 wait again, 1 return, 2 re-raise TimeoutError
         "err_mode": 0 if (calm or low) else world.choose("err_mode", 2),  # parse error: 0 catch, 1 re-raise
         "raise_at": 0 if (calm or low) else world.choose("raise_at", 8),  # 0 never; else raise after request raise_at-1
+        # the handler itself ends with asyncio.CancelledError after request cancel_at-1 (supported: the server keeps
+        # running, see the functional test test____serve_forever____request_handler_is_cancelled); both servers
+        "cancel_at": 0 if calm else world.choose("cancel_at", 6),
         # reactive arrivals: after finishing request i -> (target client offset, iteration offset)
         "react": {} if calm else {world.choose("react_i", 8): (world.choose("react_to", 2), world.choose("react_o", 4)) for _ in range(world.choose("nreact", 4))},
     }
@@ -278,6 +282,11 @@ class Ctx:
                 if cl.sc["raise_at"] == i + 1:
                     world.fault("handler_raises")
                     raise HandlerBoom(f"boom at {i}")
+                if cl.sc["cancel_at"] == i + 1:
+                    world.fault("handler_raises")
+                    world.probe("handler_raises_cancelled_error")
+                    world.log("hcancel", cl.label, i)
+                    raise asyncio.CancelledError()
                 T = cl.timeout_for(i + 1)
         finally:
             cl.active -= 1
